@@ -18,6 +18,9 @@ def gen_case(rng, big=False, many_shards=False):
         return "%d:%d" % (nid[0], n)
 
     all_prev = []
+    # sometimes a dry-run session goes first and cleans what the real session will upload
+    dry = rng.random() < 0.25
+    dry_files = []
     for s in range(rng.choice([1, 1, 2, 2])):
         nfiles = rng.choice([1, 2, 3, 5]) if not many_shards else rng.choice([3, 5, 6])
         # how many store calls to expect: roughly one put per 60000 bytes, plus one at finalize
@@ -62,6 +65,10 @@ def gen_case(rng, big=False, many_shards=False):
             all_prev.append(r)
             ops.append("f n%d_%d %s" % (s, f, r))
         ops.append("E")
+        if dry and s == 0:
+            dry_files = list(prev)
+    if dry and dry_files:
+        ops = ["S dry"] + ["f d%d %s" % (i, r) for i, r in enumerate(dry_files)] + ["E"] + ops
     return " | ".join(ops)
 
 
